@@ -19,7 +19,10 @@ CAP = 1500
 
 
 def cases(tier, seed):
-    return D.spec_cases(tier, seed, None, 400, 5500, "c03")
+    out = D.spec_cases(tier, seed, None, 400, 5500, "c03")
+    # appended classes of vlib/gen2.py (added after the generator freeze; see DESIGN.md 2.2)
+    from vlib import gen2
+    return out + gen2.appended(tier, seed, "c03", ['A1', 'A3', 'A2', 'A5'], 60, 600)
 
 
 def run_case(case):
